@@ -1,3 +1,4 @@
+import TmcgProps.C06Gen
 import TmcgProofs.GroupCheck
 /-
   C06 — Parameter validation accepts exactly well-formed groups.  Property theorems only;
